@@ -310,3 +310,19 @@ package collector
 //@   ensures  lock:    !(*cp).mutex.held
 //@   replay tplttl
 //@   modifies (*cp).mutex.held, $lastNow, (*cp).templatesMap[*], (*cp).templatesMap[*obsDomainID][*], tmr((*cp).templatesMap[*obsDomainID][*templateID]).armed
+
+// ---------------------------------------------------------------------------
+// End-to-end fidelity (C01): template field specifiers and message header read back what the exporter's contracts prescribe
+// ---------------------------------------------------------------------------
+
+//@ // b holds the field specifier bytes the exporter's template record ensures for e (specByte): what decodeTemplateSet$1 reads
+//@ // (fsId, fsLen, fsEnt, fsEntNo, fsSize) is e's element id, length and enterprise number; name and data type then come from
+//@ // the registry entry with that (enterprise, id) (clause knownel), which is e itself for registry elements
+//@ lemma roundtrip_spec(e *entities.InfoElement, b []byte):
+//@     e != nil && 0 <= e.ElementId && e.ElementId < 32768 && 0 <= e.Len && e.Len < 65536 && 0 <= e.EnterpriseId && e.EnterpriseId < 4294967296
+//@     && (forall k in [0, specLen(e)): 0 <= b[k] && b[k] < 256 && b[k] == specByte(e, k))
+//@     ==> fsId(b) == e.ElementId && fsLen(b) == e.Len && (fsEnt(b) <==> e.EnterpriseId != 0) && (fsEnt(b) ==> fsEntNo(b) == e.EnterpriseId) && fsSize(b) == specLen(e)
+//@ // the header fields decodePacket delivers (clause hdr) are the ones CreateIPFIXMsg wrote (msgHdr)
+//@ lemma roundtrip_header(m []byte, seq int, dom int, now int, dseq int, ddom int, dtime int, dlen int):
+//@     msgHdr(m, seq, dom, now) && dlen == be16(m, 2) && dtime == be32(m, 4) && dseq == be32(m, 8) && ddom == be32(m, 12)
+//@     ==> ddom == dom && dseq == seq && dlen == len(m) && dtime == (now / 1000000000) % 4294967296
